@@ -183,7 +183,7 @@ def demo_D3():
              "n_int": {"mode": "const", "k": 0}, "sub": None}
         try:
             t = gen.build_base(p)
-        except ValueError:
+        except (ValueError, gen.Degenerate):
             continue
         nint = gen.n_int_func(t, p)
         B = infer.build_static(t, nint, None, None)
